@@ -187,3 +187,46 @@ func C17_AssignPlaces() {
 		verif.Reach("rejected")
 	}
 }
+
+// C17_Streamed: the same acceptance and reporting obligations through
+// InterpretFile: every sentence (comments with CR and LF ends included), one
+// symbolic byte from the token alphabet appended to it, read in two pieces cut
+// at every position (and one byte at a time).
+func C17_Streamed() {
+	set := []int{0, 5, 6, 7}
+	if verif.Tier() == 1 {
+		set = []int{0, 1, 2, 3, 4, 5, 6, 7}
+	}
+	s := c17Sentences[set[verif.Choice("sentence", len(set))]]
+	b := verif.Byte("extra")
+	verif.Assume(c17InAlphabet(b) || b == '#' || b == '\n')
+	src := s + " #tail\r" + string([]byte{b}) + " #more\nprint 9 #end"
+	var script []symio.Step
+	if cut := verif.Choice("cut", len(src)+1); cut < len(src) {
+		script = []symio.Step{{N: cut + 1}}
+	} else {
+		for i := 0; i < len(src); i++ {
+			script = append(script, symio.Step{N: 1})
+		}
+	}
+	out, log := &symio.Writer{}, &symio.Writer{}
+	f := &symio.File{Data: []byte(src), Script: script, FileName: "file"}
+	blocks, binding, err := bcl.InterpretFile(f, bcl.OptOutput(out), bcl.OptLogger(log))
+	toks := refbcl.Tokens(src)
+	prog, syn := refbcl.ParseProgram(toks)
+	accepts := syn == nil
+	if accepts {
+		accepts = len(refbcl.Check(prog)) == 0
+	}
+	rejected := err != nil && errClass(err) == "parse"
+	verif.Observe("rejected", rejected)
+	verif.Assert(rejected == !accepts, "streamed: accepted iff derivable from the grammar")
+	if rejected {
+		verif.Reach("rejected")
+		verif.Assert(blocks == nil && binding == nil, "streamed: a rejection returns no results")
+		verif.Assert(len(c17DiagLines(log.String())) >= 1, "streamed: a rejection writes a diagnostic line")
+	} else {
+		verif.Reach("accepted")
+		verif.Assert(len(c17DiagLines(log.String())) == 0, "streamed: an acceptance writes no diagnostic")
+	}
+}
